@@ -88,6 +88,10 @@ func TestExpiryBounds(t *testing.T) {
 					cc.TimeToLive = cache.UnlimitedTTL
 				}
 
+				// the usage-based strategies keep a counter per entry; it must not drag the previous expiry along
+				cc.EvictionStrategy = []cache.EvictionStrategy{cache.EvictMostExpired, cache.EvictLeastRecentlyUsed,
+					cache.EvictLeastFrequentlyUsed}[ci%3]
+
 				be := NewBackend(kind, cc)
 
 				for s := 0; s < per; s++ {
@@ -121,6 +125,14 @@ func TestExpiryBounds(t *testing.T) {
 						ctx := context.Background()
 						if ctxTTL != 0 {
 							ctx = cache.WithTTL(ctx, ctxTTL, false)
+						}
+
+						if s%2 == 1 {
+							// the key already holds an entry with another expiry (and has been read): the LAST write decides
+							prev := []time.Duration{7 * time.Hour, -3 * time.Second, time.Nanosecond, 90 * 24 * time.Hour}[(s/2)%4]
+							mustNoErr(be.Write(cache.WithTTL(context.Background(), prev, false), key, "v0"), "first write")
+							_ = be.Read(context.Background(), key)
+							time.Sleep(time.Minute)
 						}
 
 						t0 := time.Now()
